@@ -17,7 +17,7 @@
                                                                         -> C20_reported_refuted_repeat *)
 From Coq Require Import List String Bool PrimFloat.
 From Verif Require Import Base.Result Base.Str Base.PyDict Model.Types Model.Domain Model.Exec Model.GroundTyped
-  Spec.Pddl Spec.Subst Proofs.C20_Defs Proofs.C20_Subst Proofs.C20_Report Proofs.C20_Main.
+  Spec.Pddl Spec.Subst Proofs.C20_Defs Proofs.C20_Subst Proofs.C20_Flat Proofs.C20_Report Proofs.C20_Main.
 Import ListNotations.
 
 (* ---------- (A) ---------- *)
@@ -52,6 +52,23 @@ Proof. exact C20_lit_returns_lemma. Qed.
 Theorem C20_pre : forall (d : mdomain) (pm : pmap) (p : mpre) (g : gpre),
   ground_pre d pm p = Ok g -> g = subst_pre (gname (d_consts d) pm) pm p.
 Proof. exact ground_pre_ok. Qed.
+
+(* the same on flat lists: literals, numeric conditions, add/delete and numeric effects are [map (subst sigma)] of the
+   schema's, in order, equally many; one effect group per schema group *)
+Theorem C20_flat : forall (d : mdomain) (a : maction) (args : list string) (ga : gaction),
+  let sigma := combine (dkeys (ma_sig a)) args in
+  ground_action d a args = Ok ga ->
+  no_shadow (d_consts d) (dkeys sigma) = true ->
+  gpre_lits (ga_pre ga) = map (subst_flat_lit (subst sigma)) (mpre_lits (ma_pre a)) /\
+  gpre_trees (ga_pre ga) = map (subst_tree (subst sigma)) (mpre_trees (ma_pre a)) /\
+  List.length (gpre_lits (ga_pre ga)) = List.length (mpre_lits (ma_pre a)) /\
+  List.length (gpre_trees (ga_pre ga)) = List.length (mpre_trees (ma_pre a)) /\
+  map gg_disc (ga_groups ga) =
+    map (subst_lit (subst sigma)) (ma_disc a) :: map (fun ce => map (subst_lit (subst sigma)) (ce_disc ce)) (ma_cond a) /\
+  map gg_num (ga_groups ga) =
+    map (subst_tree (subst sigma)) (ma_num a) :: map (fun ce => map (subst_tree (subst sigma)) (ce_num ce)) (ma_cond a) /\
+  List.length (ga_groups ga) = S (List.length (ma_cond a)).
+Proof. exact C20_flat_lemma. Qed.
 
 (* ---------- (B) ---------- *)
 (* the precondition: literals with their typed form, numeric conditions, (in)equalities -- position by position *)
@@ -122,6 +139,7 @@ Print Assumptions C20_ground_error_kinds.
 Print Assumptions C20_lit.
 Print Assumptions C20_lit_returns_iff.
 Print Assumptions C20_pre.
+Print Assumptions C20_flat.
 Print Assumptions C20_reported_pre.
 Print Assumptions C20_reported_group.
 Print Assumptions C20_reported_ante.
